@@ -30,4 +30,14 @@ def m_codec_law_delims(f, m):
     return m.get("what") == "codec-law" and isinstance(m.get("exp"), dict) and m["exp"].get("delims") is True and m["exp"].get("faithful") is False
 
 
-MATCHERS = {"codec_law_delims": m_codec_law_delims}
+def m_f03(f, m):
+    if m_codec_law_delims(f, m):
+        return True
+    return m.get("what") == "event" and m["event"].get("k") == "idem" and "[F03:" in m.get("verdict", "")
+
+
+def m_f14(f, m):
+    return m.get("what") == "event" and m["event"].get("k") == "idem" and "[F14:" in m.get("verdict", "")
+
+
+MATCHERS = {"codec_law_delims": m_f03, "f03": m_f03, "f14": m_f14}
